@@ -982,7 +982,13 @@ atomic:
 		if written {
 			// stream-like receivers accumulate: write(prev, data)
 			if name == "encoding/binary.Write" && i == 0 && len(at) >= 3 {
-				ti.writeObj(a.addr, T("write", at[0], T("le", at[2])), p)
+				ord := "le"
+				if strings.Contains(at[1].String(), "BigEndian") {
+					ord = "be"
+				} else if !strings.Contains(at[1].String(), "LittleEndian") {
+					ord = "order?"
+				}
+				ti.writeObj(a.addr, T("write", at[0], T(ord, at[2])), p)
 			} else if op, isW := ti.Cfg.Writers[name]; isW && i == 0 && len(at) >= 2 {
 				ti.writeObj(a.addr, T("write", at[0], T(op, at[1:]...)), p)
 			} else if f != nil && f.Name() == "Reset" && i == 0 {
